@@ -412,9 +412,15 @@ def _exp(x):
     return _finite(iv.exp(x))
 
 
+class _UnkUnspecified(_Unk):
+    """The term denotes SOME real number that the library does not pin down (log of a non-positive number)."""
+
+
 def _log(x):
     if isinstance(x, Fraction) and x == 1:
         return Fraction(0)
+    if _sign(x) in (0, -1):
+        raise _UnkUnspecified('log of a non-positive number')
     if _sign(x) != 1:
         _unk('log of a non-positive (or not certainly positive) number')
     return _finite(iv.log(to_interval(x)))
@@ -617,6 +623,13 @@ def _ev(t, env):
         if R == 'int':
             _check_int(a)
         return _abs(a)
+    if name == 'exp' and n == 1 and R == 'real' and argTs == ['real']:
+        try:
+            a = _ev(args[0], env)
+        except _UnkUnspecified:
+            # exp of an unspecified real: still a positive real (only comparisons with non-positive values decide)
+            return iv.mpf([0, 'inf'])
+        return _exp(a)
     if name in _REAL_FUNS and n == 1 and R == 'real' and argTs == ['real']:
         return _REAL_FUNS[name](_ev(args[0], env))
     if name in ('max', 'min') and n == 2 and R in _NUM and argTs == [R, R]:
